@@ -398,10 +398,9 @@ class KeyFileScenario(Scenario):
                 rec.fail("C07/verbatim", "C07/decrypt-same-key-fails/%s" % method,
                          "decrypt with the same key file content gave %r / %r" % (out, err))
         else:
+            # what another key yields is C08's business (and for XOR a short plaintext survives any key that
+            # shares a prefix with the right one); nothing is claimed here
             rec.probe("decrypt-other-key")
-            if err is None and out == raw and raw:
-                rec.fail("C07/verbatim", "C07/decrypt-wrong-key-succeeds/%s" % method,
-                         "decrypt under a different key returned the plaintext")
 
     def finish(self, st, rec):
         # every key created in-run must still be on disk unless the external actor replaced it:
